@@ -17,7 +17,7 @@
 From Coq Require Import Reals List ZArith Bool Lra Lia.
 From Flocq Require Import Raux.
 From Alpaqa Require Import Num NumR Vec Prox ProxProofs ProxVec QpBound SolverStatus SolverKernels DescentProofs StopChain StopChainProofs
-                           Panoc PanocProofs LiveVec PanocLive PanocLiveN.
+                           Panoc PanocProofs LiveVec PanocLive PanocLiveN ZeroFpr ZeroFprProofs ZeroFprLive.
 Import ListNotations.
 Local Open Scope R_scope.
 
@@ -154,6 +154,64 @@ Print Assumptions C02_panoc_returns_converged.
 Print Assumptions C02_panoc_returns_converged_explicit_N.
 Print Assumptions C02_panoc_converged_point.
 
+Section C02_ZEROFPR_LIVE.
+  Variable psi_grad_full : list R -> R * list R * list R.
+  Variable psi_yhat : list R -> R * list R.
+  Variable grad_L : list R -> list R -> list R.
+  Variable grad_psi : list R -> list R.
+  Variables (lb ub : list (option R)).
+  Variable dir_apply : nat -> iterate (T:=R) -> proxit (T:=R) -> option (list R).   (* ARBITRARY; also sees the prox iterate *)
+  Variable has_initial : bool.
+  Variable P : params (T:=R).
+  Variables (x_in y_in Σ errz_in : list R).
+  Variable ls_fuel : nat.
+  Variables (ψ : list R -> R) (g : list R -> list R) (n : nat) (Lf ψinf : R).
+
+  Notation never := (fun _ : counters => false).
+  Notation run := (zerofpr psi_grad_full psi_yhat grad_L grad_psi lb ub [] dir_apply has_initial never never P x_in y_in Σ errz_in ls_fuel).
+  Notation Linit := (L_init psi_grad_full grad_psi P x_in).
+
+  Hypothesis oracle_values : forall x, psi_grad psi_grad_full x = (ψ x, g x).
+  Hypothesis oracles_coherent : zcoherent psi_grad_full psi_yhat grad_L.
+  Hypothesis grad_length : forall x, length x = n -> length (g x) = n.
+  Hypothesis quadratic_upper_bound : forall u d, length u = n -> length d = n ->
+    ψ (vadd u d) <= ψ u + vdot (g u) d + Lf / 2 * vsqnorm d.
+  Hypothesis bounded_below_on_C : forall z, all_in_box lb ub z -> ψinf <= ψ z.
+  Hypothesis len_lb : length lb = n.
+  Hypothesis len_ub : length ub = n.
+  Hypothesis boxes_nonempty : Forall2 box_ne lb ub.
+  Hypothesis len_x : length x_in = n.
+  Hypothesis direction_dimension : forall j i px q, dir_apply j i px = Some q -> length q = n.
+  Hypothesis Lgamma_factor : 0 < p_Lgamma P < 1.
+  Hypothesis L_init_positive : 0 < Linit.
+  Hypothesis Lf_below_L_max : Lf <= p_Lmax P.
+  Hypothesis qub_tolerance_factor_zero : p_qub_tol P = 0.
+  Hypothesis linesearch_tolerance_factor_zero : p_ls_tol P = 0.
+  Hypothesis strictness_factor : 0 < p_beta P <= 1.
+  Hypothesis force_linesearch_off : p_force_ls P = false.
+  Hypothesis criterion : p_crit P = ProjGradNorm \/ p_crit P = ProjGradNorm2 \/ p_crit P = FPRNorm \/ p_crit P = FPRNorm2.
+  Variables (nL nT : nat).
+  Hypothesis L_max_reached : p_Lmax P <= Linit * 2 ^ nL.
+  Hypothesis tau_min_reached : (1 / 2) ^ nT < p_tau_min P.                (* ZeroFPR halves τ *)
+  Hypothesis linesearch_fuel : (ZeroFprProofs.ls_pass_bound nL nT <= ls_fuel)%nat.
+
+  Notation Dec := (dec psi_grad_full grad_psi P x_in Lf).
+  Notation PHI0 := (Phi0 psi_grad_full grad_psi lb ub P x_in ψ g Lf).
+
+  Theorem C02_zerofpr_returns_converged : forall (N fuel : nat),
+    PHI0 - ψinf < INR N * Dec -> (N <= p_max_iter P)%nat -> (N < fuel)%nat ->
+    exists o, run fuel = Done o /\ out_status o = StConverged /\ (out_iterations o < N)%nat.
+  Proof.
+    exact (fun N fuel HN Hmax Hf =>
+      zerofpr_live psi_grad_full psi_yhat grad_L grad_psi lb ub dir_apply has_initial P x_in y_in Σ errz_in ls_fuel ψ g n Lf ψinf
+             oracle_values oracles_coherent grad_length quadratic_upper_bound bounded_below_on_C len_lb len_ub boxes_nonempty len_x
+             direction_dimension Lgamma_factor L_init_positive Lf_below_L_max qub_tolerance_factor_zero linesearch_tolerance_factor_zero
+             strictness_factor force_linesearch_off criterion nL nT L_max_reached tau_min_reached linesearch_fuel
+             PHI0 N HN Hmax (Rle_refl _) fuel Hf).
+  Qed.
+End C02_ZEROFPR_LIVE.
+Print Assumptions C02_zerofpr_returns_converged.
+
 (* non-vacuity of the liveness theorem: ψ(x) = x²/2 on R (n = 1, C = R, Lf = 1, ψinf = 0), x_in = 1, L_0 = 1, Lγ = 1/2, L_max = 4, β = 1,
    ProjGradNorm with tolerance 1: every hypothesis holds (L̄ = 2, γmin = 1/4, cmin = 1/2, dec = 1/2, Φ0 = 3/8, N = 1), so for EVERY
    direction provider of dimension 1 the run converges before completing one iteration *)
@@ -191,6 +249,49 @@ Proof.
   - left. reflexivity.
   - rewrite HL. cbn. lra.
   - cbn. lra.
+  - cbn. lra.
+  - cbn. lia.
+  - unfold Phi0. unfold dec, cmin, delta, gam0, gam_min, Lbar, tol, eff_tol. rewrite HL.
+    cbn [lv_P p_beta p_Lgamma p_crit o_tol]. change (@nltb R NumR (@n0 R NumR) 1) with (Rlt_bool 0 1).
+    destruct (Rlt_bool_spec 0 1) as [_|H]; [|lra].
+    replace (Rmax 1 (2 * 1)) with 2 by (unfold Rmax; destruct (Rle_dec 1 (2 * 1)); lra).
+    unfold lv_ψ, proj_grad_step. cbn. lra.
+  - cbn. lia.
+  - lia.
+Qed.
+
+(* the same instance for ZeroFPR *)
+Example C02_liveness_nonvacuous_zerofpr : forall (dir_apply : nat -> iterate (T:=R) -> proxit (T:=R) -> option (list R)) (has_initial : bool),
+  (forall j i px q, dir_apply j i px = Some q -> length q = 1%nat) ->
+  exists o, zerofpr (T:=R) (fun x => (lv_ψ x, x, [])) (fun x => (lv_ψ x, [])) (fun x _ => x) (fun x => x) [None] [None] []
+                  dir_apply has_initial (fun _ => false) (fun _ => false) lv_P [1] [] [] [] 18 2 = Done o /\
+            out_status o = StConverged /\ (out_iterations o < 1)%nat.
+Proof.
+  intros dir_apply has_initial Hdir.
+  assert (HL : L_init (fun x => (lv_ψ x, x, [])) (fun x => x) lv_P [1] = 1).
+  { unfold L_init, init_L, lv_P. cbn [p_L0]. change (@nleb R NumR 1 (@n0 R NumR)) with (Rle_bool 1 0).
+    destruct (Rle_bool_spec 1 0) as [H|_]; [lra|]. reflexivity. }
+  apply (C02_zerofpr_returns_converged (fun x => (lv_ψ x, x, [])) (fun x => (lv_ψ x, [])) (fun x _ => x) (fun x => x) [None] [None]
+           dir_apply has_initial lv_P [1] [] [] [] 18 lv_ψ (fun x => x) 1 1 0) with (nL := 2%nat) (nT := 3%nat).
+  - intros x. reflexivity.
+  - intros x. reflexivity.
+  - intros x Hx. exact Hx.
+  - intros [|a [|? ?]] [|b [|? ?]]; cbn [length]; intros; try discriminate. unfold lv_ψ. cbn. lra.
+  - intros z _. unfold lv_ψ. pose proof (vsqnorm_nonneg z). lra.
+  - reflexivity.
+  - reflexivity.
+  - repeat constructor.
+  - reflexivity.
+  - exact Hdir.
+  - cbn. lra.
+  - rewrite HL. lra.
+  - cbn. lra.
+  - reflexivity.
+  - reflexivity.
+  - cbn. lra.
+  - reflexivity.
+  - left. reflexivity.
+  - rewrite HL. cbn. lra.
   - cbn. lra.
   - cbn. lia.
   - unfold Phi0. unfold dec, cmin, delta, gam0, gam_min, Lbar, tol, eff_tol. rewrite HL.
